@@ -52,6 +52,68 @@ impl Clone for CKey {
     }
 }
 
+/// key without drop glue (std::mem::needs_drop is false), same controlled hash: the VM's own
+/// tables are CaoHashMap<Value, Value>, neither of which has drop glue
+#[derive(Clone, Copy)]
+pub struct PKey(pub K);
+impl Hash for PKey {
+    fn hash<H: Hasher>(&self, state: &mut H) {
+        state.write(&self.0 .0.to_le_bytes());
+    }
+}
+impl PartialEq for PKey {
+    fn eq(&self, o: &Self) -> bool {
+        self.0 == o.0
+    }
+}
+impl Eq for PKey {}
+#[derive(Clone, Copy)]
+pub struct PVal(pub u64);
+
+/// element types a history is executed with
+pub trait Elems {
+    type Key: Hash + Eq + Clone;
+    type Val: Clone;
+    fn key(log: &Rc<DropLog>, k: K) -> Self::Key;
+    fn val(log: &Rc<DropLog>, tag: u64) -> Self::Val;
+    fn k_of(k: &Self::Key) -> K;
+    fn tag_of(v: &Self::Val) -> u64;
+}
+pub struct TrackedElems;
+impl Elems for TrackedElems {
+    type Key = CKey;
+    type Val = Tracked;
+    fn key(log: &Rc<DropLog>, k: K) -> CKey {
+        CKey { k, t: log.make(0) }
+    }
+    fn val(log: &Rc<DropLog>, tag: u64) -> Tracked {
+        log.make(tag)
+    }
+    fn k_of(k: &CKey) -> K {
+        k.k
+    }
+    fn tag_of(v: &Tracked) -> u64 {
+        v.tag
+    }
+}
+pub struct PlainElems;
+impl Elems for PlainElems {
+    type Key = PKey;
+    type Val = PVal;
+    fn key(_log: &Rc<DropLog>, k: K) -> PKey {
+        PKey(k)
+    }
+    fn val(_log: &Rc<DropLog>, tag: u64) -> PVal {
+        PVal(tag)
+    }
+    fn k_of(k: &PKey) -> K {
+        k.0
+    }
+    fn tag_of(v: &PVal) -> u64 {
+        v.0
+    }
+}
+
 #[derive(Clone, Debug, Serialize, Deserialize, PartialEq)]
 pub enum Op {
     Insert(K, u64),
@@ -258,7 +320,7 @@ fn classify(got: Option<u64>, want: Option<u64>) -> &'static str {
     }
 }
 
-pub fn run_history<A: Allocator + Clone>(
+pub fn run_history<E: Elems, A: Allocator + Clone>(
     h: &History,
     alloc: A,
     calls: &dyn Fn() -> u64,
@@ -266,7 +328,7 @@ pub fn run_history<A: Allocator + Clone>(
 ) -> RunInfo {
     let mut info = RunInfo::default();
     let log = Rc::new(DropLog::default());
-    let mk = |k: K| CKey { k, t: log.make(0) };
+    let mk = |k: K| E::key(&log, k);
     let mut model: BTreeMap<K, u64> = BTreeMap::new();
     let mut pool: Vec<K> = vec![];
     for op in &h.ops {
@@ -294,7 +356,7 @@ pub fn run_history<A: Allocator + Clone>(
 
     let c0 = calls();
     let f0 = fired();
-    let built = catch(|| CaoHashMap::<CKey, Tracked, A>::with_capacity_in(h.init_cap, alloc.clone()));
+    let built = catch(|| CaoHashMap::<E::Key, E::Val, A>::with_capacity_in(h.init_cap, alloc.clone()));
     info.alloc_ranges.push((c0, calls()));
     let mut map = match built {
         Err(p) => {
@@ -325,14 +387,14 @@ pub fn run_history<A: Allocator + Clone>(
                     if fnv32(k.0) == 0 {
                         info.zero_hash_used += 1;
                     }
-                    match map.insert(mk(*k), log.make(*tag)) {
+                    match map.insert(mk(*k), E::val(&log, *tag)) {
                         Ok(_) => {
                             model.insert(*k, *tag);
                         }
                         Err(MapError::AllocError(_)) if fired() > f0 => {
                             info.failed_ops += 1;
                             // the key of the failed insert may be present or absent: resynchronise
-                            let got = map.get(&mk(*k)).map(|t| t.tag);
+                            let got = map.get(&mk(*k)).map(|t| E::tag_of(t));
                             let old = model.get(k).copied();
                             if got == Some(*tag) {
                                 model.insert(*k, *tag);
@@ -346,7 +408,7 @@ pub fn run_history<A: Allocator + Clone>(
                 Op::Remove(k) => {
                     let got = map.remove(&mk(*k));
                     let want = model.remove(k);
-                    let got_tag = got.as_ref().map(|t| t.tag);
+                    let got_tag = got.as_ref().map(|t| E::tag_of(t));
                     drop(got);
                     if got_tag != want {
                         return Err((classify(got_tag, want).into(), format!("remove({k:?}) got {got_tag:?} want {want:?}")));
@@ -356,7 +418,7 @@ pub fn run_history<A: Allocator + Clone>(
                     }
                 }
                 Op::Get(k) => {
-                    let got = map.get(&mk(*k)).map(|t| t.tag);
+                    let got = map.get(&mk(*k)).map(|t| E::tag_of(t));
                     let want = model.get(k).copied();
                     if got != want {
                         return Err((classify(got, want).into(), format!("get({k:?}) got {got:?} want {want:?}")));
@@ -366,10 +428,10 @@ pub fn run_history<A: Allocator + Clone>(
                     let want = model.get(k).copied();
                     match map.get_mut(&mk(*k)) {
                         Some(r) => {
-                            if Some(r.tag) != want {
-                                return Err((classify(Some(r.tag), want).into(), format!("get_mut({k:?}) got {} want {want:?}", r.tag)));
+                            if Some(E::tag_of(r)) != want {
+                                return Err((classify(Some(E::tag_of(r)), want).into(), format!("get_mut({k:?}) got {} want {want:?}", E::tag_of(r))));
                             }
-                            *r = log.make(*tag);
+                            *r = E::val(&log, *tag);
                             model.insert(*k, *tag);
                         }
                         None => {
@@ -392,7 +454,7 @@ pub fn run_history<A: Allocator + Clone>(
                     let want = model.get(k).copied().unwrap_or(*tag);
                     match map.entry(mk(*k)) {
                         Ok(e) => {
-                            let got = e.or_insert_with(|| log.make(*tag)).tag;
+                            let got = E::tag_of(e.or_insert_with(|| E::val(&log, *tag)));
                             model.entry(*k).or_insert(*tag);
                             if got != want {
                                 return Err(("stale-value".into(), format!("entry({k:?}) got {got} want {want}")));
@@ -421,7 +483,7 @@ pub fn run_history<A: Allocator + Clone>(
                     drop(old);
                 }
                 Op::Iter => {
-                    let mut got: Vec<(K, u64)> = map.iter().map(|(k, t)| (k.k, t.tag)).collect();
+                    let mut got: Vec<(K, u64)> = map.iter().map(|(k, t)| (E::k_of(k), E::tag_of(t))).collect();
                     got.sort();
                     let want: Vec<(K, u64)> = model.iter().map(|(k, v)| (*k, *v)).collect();
                     if got != want {
@@ -454,14 +516,14 @@ pub fn run_history<A: Allocator + Clone>(
                 return Err(("len".into(), format!("len {} want {}", map.len(), model.len())));
             }
             for k in pool.iter() {
-                let got = map.get(&mk(*k)).map(|t| t.tag);
+                let got = map.get(&mk(*k)).map(|t| E::tag_of(t));
                 let want = model.get(k).copied();
                 if got != want {
                     return Err((classify(got, want).into(), format!("after {opname}: get({k:?}) got {got:?} want {want:?}")));
                 }
             }
             // iteration as a multiset (cheap: maps are small)
-            let mut got: Vec<(K, u64)> = map.iter().map(|(k, t)| (k.k, t.tag)).collect();
+            let mut got: Vec<(K, u64)> = map.iter().map(|(k, t)| (E::k_of(k), E::tag_of(t))).collect();
             got.sort();
             let want: Vec<(K, u64)> = model.iter().map(|(k, v)| (*k, *v)).collect();
             if got != want {
@@ -522,17 +584,33 @@ fn sig_of(f: &Fail, fault: bool) -> Value {
 }
 
 fn run_fault(h: &History, fail_at: Option<u64>) -> (RunInfo, Vec<String>, u64, usize) {
+    run_fault_e::<TrackedElems>(h, fail_at)
+}
+
+fn run_fault_e<E: Elems>(h: &History, fail_at: Option<u64>) -> (RunInfo, Vec<String>, u64, usize) {
     let fa = FaultAlloc::new();
     fa.fail_at(fail_at);
     let a = fa.clone();
     let b = fa.clone();
-    let info = run_history(h, fa.clone(), &move || a.calls(), &move || b.fired());
+    let info = run_history::<E, _>(h, fa.clone(), &move || a.calls(), &move || b.fired());
     let errs = fa.take_errors();
     (info, errs, fa.fired(), fa.outstanding())
 }
 
 fn first_fail_fault(h: &History, fail_at: Option<u64>) -> Option<(Value, String)> {
-    let (info, errs, fired, outstanding) = run_fault(h, fail_at);
+    first_fail_fault_e::<TrackedElems>(h, fail_at)
+}
+
+/// the same with key / value types without drop glue; the signature says so
+fn first_fail_plain(h: &History, fail_at: Option<u64>) -> Option<(Value, String)> {
+    first_fail_fault_e::<PlainElems>(h, fail_at).map(|(mut sig, what)| {
+        sig["elements"] = json!("plain");
+        (sig, format!("(elements without drop glue) {what}"))
+    })
+}
+
+fn first_fail_fault_e<E: Elems>(h: &History, fail_at: Option<u64>) -> Option<(Value, String)> {
+    let (info, errs, fired, outstanding) = run_fault_e::<E>(h, fail_at);
     let fault = fail_at.is_some() && fired > 0;
     if let Some(f) = &info.fail {
         return Some((sig_of(f, fault), format!("{} #{}: {} ({})", f.op, f.op_index, f.diverged, f.detail)));
@@ -547,13 +625,15 @@ fn first_fail_fault(h: &History, fail_at: Option<u64>) -> Option<(Value, String)
     None
 }
 
-fn shrink(h: &History, fail_at: Option<u64>, sig: &Value) -> History {
+type FirstFail = fn(&History, Option<u64>) -> Option<(Value, String)>;
+
+fn shrink(h: &History, fail_at: Option<u64>, sig: &Value, first_fail: FirstFail) -> History {
     let mut cur = h.clone();
     if fail_at.is_some() {
         while cur.ops.len() > 1 {
             let mut cand = cur.clone();
             cand.ops.pop();
-            match first_fail_fault(&cand, fail_at) {
+            match first_fail(&cand, fail_at) {
                 Some((s, _)) if &s == sig => cur = cand,
                 _ => break,
             }
@@ -567,7 +647,7 @@ fn shrink(h: &History, fail_at: Option<u64>, sig: &Value) -> History {
             i -= 1;
             let mut cand = cur.clone();
             cand.ops.remove(i);
-            if let Some((s, _)) = first_fail_fault(&cand, None) {
+            if let Some((s, _)) = first_fail(&cand, None) {
                 if &s == sig {
                     cur = cand;
                     changed = true;
@@ -591,14 +671,15 @@ fn report(ctx: &mut CaseCtx, h: &History, alloc: &str, fail_at: Option<u64>, sig
 
 fn run_other(h: &History, alloc: &str) -> Option<(Value, String)> {
     match alloc {
+        "plain" => first_fail_plain(h, None),
         "sys" => {
-            let info = run_history(h, SysAllocator, &|| 0, &|| 0);
+            let info = run_history::<TrackedElems, _>(h, SysAllocator, &|| 0, &|| 0);
             info.fail.as_ref().map(|f| (sig_of(f, false), format!("{} #{}: {} ({})", f.op, f.op_index, f.diverged, f.detail)))
         }
         _ => {
             let vm = cao_lang::prelude::Vm::new(()).ok()?;
             let proxy = vm.runtime_data.verif_view().memory.clone();
-            let info = run_history(h, proxy, &|| 0, &|| 0);
+            let info = run_history::<TrackedElems, _>(h, proxy, &|| 0, &|| 0);
             if let Some(f) = &info.fail {
                 return Some((sig_of(f, false), format!("{} #{}: {} ({})", f.op, f.op_index, f.diverged, f.detail)));
             }
@@ -654,6 +735,33 @@ fn exec_all(ctx: &mut CaseCtx, h: &History, hash: u64) {
             break;
         }
     }
+    // the same history and the same failure points with element types without drop glue (what the
+    // VM itself stores: Value keys and values)
+    ctx.progress("run plain");
+    ctx.evaluation();
+    let (pinfo, _, _, _) = run_fault_e::<PlainElems>(h, None);
+    if let Some((sig, what)) = first_fail_plain(h, None) {
+        report(ctx, h, "plain", None, sig, what);
+    } else {
+        let mut js = vec![];
+        for (oi, (a, b)) in pinfo.alloc_ranges.iter().enumerate() {
+            let fallible = if oi == 0 { true } else { h.ops[oi - 1].fallible() };
+            if fallible {
+                for j in *a..*b {
+                    js.push(j);
+                }
+            }
+        }
+        for j in js {
+            ctx.progress("run plain fail-at");
+            ctx.evaluation();
+            if let Some((sig, what)) = first_fail_plain(h, Some(j)) {
+                report(ctx, h, "plain", Some(j), sig, what);
+                break;
+            }
+            ctx.count("fault:alloc_fail_fired_plain_elements", 1);
+        }
+    }
     for alloc in ["sys", "vm"] {
         ctx.progress(&format!("run {alloc}"));
         ctx.evaluation();
@@ -705,6 +813,7 @@ impl Check for C12 {
         ctx.evaluation();
         let r = match alloc {
             "fault" => first_fail_fault(&h, fail_at),
+            "plain" => first_fail_plain(&h, fail_at),
             other => run_other(&h, other),
         };
         if let Some((sig, what)) = r {
@@ -717,8 +826,12 @@ impl Check for C12 {
         };
         let alloc = replay.get("alloc").and_then(|a| a.as_str()).unwrap_or("fault").to_string();
         let fail_at = replay.get("fail_at").and_then(|a| a.as_u64());
+        if alloc == "plain" {
+            let hm = shrink(&h, fail_at, sig, first_fail_plain);
+            return json!({"history": hm, "alloc": alloc, "fail_at": fail_at});
+        }
         let on_stub = first_fail_fault(&h, fail_at).map(|(s, _)| &s == sig).unwrap_or(false);
-        let hm = if on_stub { shrink(&h, fail_at, sig) } else { h.clone() };
+        let hm = if on_stub { shrink(&h, fail_at, sig, first_fail_fault) } else { h.clone() };
         let alloc = if on_stub { "fault".to_string() } else { alloc };
         json!({"history": hm, "alloc": alloc, "fail_at": fail_at})
     }
